@@ -148,6 +148,29 @@ def build_models(ctx, rep):
     for self_str, path in scancode_impls(ctx):
         models.append(SetModel(ctx, self_str, path))
     rep.floor('ScancodeSet impls', len(models), 2)
+    # an inherent method with the trait method's name shadows it for direct `set.advance_state(b)` calls: it must
+    # behave identically
+    for m in models:
+        for f in ctx.facts['fns']:
+            if f['name'] == 'advance_state' and f.get('impl_self_str') == m.self_str and not f.get('impl_trait'):
+                try:
+                    t2 = ScanTable(ctx, m.self_str, f['path'])
+                    bad = None
+                    for s_ in sorted(m.reach):
+                        for b in range(256):
+                            if t2.cell(s_, b)[:2] != m.tab.cell(s_, b)[:2]:
+                                bad = (s_, b)
+                                break
+                        if bad:
+                            break
+                    rep.ob('inherent method agrees with the trait method', 1, 0 if bad else 1)
+                    if bad:
+                        rep.finding('%s %s inherent-advance_state-shadows-trait-method' % (rep.prop, m.name),
+                                    'inherent %s (at %s) is what `set.advance_state(..)` calls; in state %s byte 0x%02X it gives %s where the '
+                                    'ScancodeSet impl gives %s' % (f['path'], f['sp'], m.tab.state_str(bad[0]), bad[1],
+                                                                  show_res(ctx, t2.cell(*bad)[0]), show_res(ctx, m.tab.cell(*bad)[0])))
+                except Undecided as u:
+                    rep.finding('%s %s inherent-advance_state undecided' % (rep.prop, m.name), 'inherent method shadowing the trait method could not be analysed: %s' % u)
     # every way of obtaining a decoder (Default::default, ...) must give the same initial condition as new()
     for m in models:
         for path, st, sp in other_constructors(ctx, m.self_str, m.new_path):
